@@ -7,6 +7,7 @@ import (
 	"errors"
 	"io"
 	"strings"
+	"time"
 
 	"github.com/nlnwa/gowarc/v2/internal/diskbuffer"
 )
@@ -317,3 +318,6 @@ func VerifNewBlock(http bool, content []byte, cached bool, maxMem int64) (Block,
 	v := &Validation{}
 	return newHttpBlock(o, wf, src, bd, pd, v)
 }
+
+// VerifSetNow fixes the package clock (the `now` variable warcfile.go already keeps for its own tests).
+func VerifSetNow(t time.Time) { now = func() time.Time { return t } }
